@@ -59,6 +59,50 @@ class SZInt:
     def __gt__(self, o): return zbool(self.t > _term(o))
     def __ge__(self, o): return zbool(self.t >= _term(o))
     def __bool__(self): return bool(self != 0)
+    # word-level shifts / masks / modulus by constants (non-negative values: stated by the fresh() axioms of the operands)
+    def __rshift__(self, n): return SZInt(self.t / (1 << int(n)))
+    def __lshift__(self, n): return SZInt(self.t * (1 << int(n)))
+    def __mul__(self, k):
+        if not isinstance(k, int): raise core.OutOfReach("non-linear integer product")
+        return SZInt(self.t * k)
+    __rmul__ = __mul__
+    def __mod__(self, m): return SZInt(self.t % int(m))
+    def __and__(self, mask):
+        mask = int(mask)
+        if mask < 0 or mask & (mask + 1): raise core.OutOfReach("mask on symbolic integer")
+        return SZInt(self.t % (mask + 1))
+    __rand__ = __and__
+    def __invert__(self): return SZInv(self)
+    def bit(self, i): return zbool((self.t / (1 << i)) % 2 == 1)
+    def to_bytes(self, length=1, byteorder="big", signed=False):
+        """octets of a value the caller knows to fit (an overflow is a separate fork: CPython raises OverflowError)"""
+        from .values import SBytes
+        if bool(zbool(self.t >= (1 << (8 * length)))) or bool(zbool(self.t < 0)):
+            raise OverflowError("int too big to convert")
+        by = [SInt(tuple(self.bit(8 * i + j) for j in range(8))).n() for i in range(length)]
+        if byteorder == "big":
+            by.reverse()
+        r = SBytes(by)
+        r.zsrc = (self, byteorder)  # ghost: the word these octets spell (lets a contract compare at word level)
+        return r
     def __hash__(self): raise core.OutOfReach("hash of symbolic int")
     def __deepcopy__(self, memo): return self
     def __repr__(self): return "SZInt"
+
+
+class SZInv:
+    """~x of a symbolic natural (a negative number): only  (~x) & (2^k - 1)  =  2^k - 1 - (x mod 2^k)  is supported"""
+
+    def __init__(self, x):
+        self.x = x
+
+    def __and__(self, mask):
+        mask = int(mask)
+        if mask < 0 or mask & (mask + 1):
+            raise core.OutOfReach("mask on symbolic integer")
+        return SZInt(mask - (self.x.t % (mask + 1)))
+
+    __rand__ = __and__
+
+    def __invert__(self):
+        return self.x
